@@ -54,6 +54,7 @@ fn eval(op: &str, args: &[&str]) -> Option<Vec<String>> {
         "ctor" => tlsop::ctor(args),
         "racc" => c15::racc(args),
         "cstall" => poolop::cstall(args),
+        "late" => poolop::late(args),
         "shut" => shutop::shut(args),
         "transports" => c18::transports(args),
         "body" => c10::body(args),
